@@ -23,19 +23,19 @@ RULE = ("schemas over every field family including nested schemas, config-type f
         "inspect.signature(function) minus its first parameter, nothing is written to stdout (captured at file-"
         "descriptor level and through sys.stdout), schema fingerprint and configuration snapshot unchanged; "
         "non-trivial = >= 3 fields and (>= 1 method or virtual field or nested part); distinct = distinct schema")
-REQUIRED = ("methods_called_as_the_stub_declares", "fields_registered_under_a_second_name", "fields_also_used_by_another_schema", "methods_with_percent_in_annotations", "methods_registered_twice_compared", "input:nested-configtype", "decorated_methods_compared", "virtual_getters_with_string_annotations", "schemas_with_soft_keyword_names", "calls_without_class_name", "schemas_with_long_declaration", "input:nested-schema", "input:nested-config", "bare:empty", "bare:virtual", "bare:methods", "bare:both", "repeat_generations_compared", "dynamic_config_with_adhoc_field", "stubs_parsed", "attribute_sets_compared", "init_signatures_compared", "method_signatures_compared",
+REQUIRED = ("methods_without_a_named_first_parameter", "methods_called_as_the_stub_declares", "fields_registered_under_a_second_name", "fields_also_used_by_another_schema", "methods_with_percent_in_annotations", "methods_registered_twice_compared", "input:nested-configtype", "decorated_methods_compared", "virtual_getters_with_string_annotations", "schemas_with_soft_keyword_names", "calls_without_class_name", "schemas_with_long_declaration", "input:nested-schema", "input:nested-config", "bare:empty", "bare:virtual", "bare:methods", "bare:both", "repeat_generations_compared", "dynamic_config_with_adhoc_field", "stubs_parsed", "attribute_sets_compared", "init_signatures_compared", "method_signatures_compared",
             "stdout_captures", "side_effect_checks", "input:schema", "input:config", "input:configtype",
             "methods_with_return_annotation", "schemas_with_configtype_field")
-ASSUMPTIONS = ["functions always name their first (configuration) parameter; positional-only parameters are not generated",
+ASSUMPTIONS = ["positional-only parameters are not generated",
                "parameter annotations are classes, typing constructs, strings or None; an annotation that is some other object "
                "(a tuple, a number) makes the generator raise TypeError('Unknown storage_type') - not a type, not judged; a RETURN "
                "annotation of that kind is left out of the stub, which is judged like any other"]
 ANNOTATIONS = ["", "", ": int", ": str", ": float", ": typing.Optional[int]", ": typing.List[str]", ": 'Config'", ": None",
                ": typing.Dict[str, typing.Any]", ": bool", ": LocalCls", ": Outer", ": Outer.Inner", ": bytes",
                # annotations whose text carries characters that mean something to string formatting
-               ": typing.Literal['50%', '100%']", ": 'typing.Literal[\"%s\"]'", ": typing.Literal['{0}', '%(n)d']"]
+               ": int | None", ": list[int]", ": dict[str, int]", ": typing.Literal['50%', '100%']", ": 'typing.Literal[\"%s\"]'", ": typing.Literal['{0}', '%(n)d']"]
 RETURNS = ["", "", " -> int", " -> str", " -> None", " -> typing.List[int]", " -> 'Config'", " -> typing.Optional[str]", " -> bool",
-           " -> LocalCls", " -> Outer.Inner", " -> typing.Literal['%d%%']", " -> [int]", " -> (int, str)", " -> 'typing.Literal[\"{}\", \"%\"]'"]
+           " -> LocalCls", " -> Outer.Inner", " -> typing.Literal['%d%%']", " -> [int]", " -> (int, str)", " -> int | None", " -> list[str]", " -> 'typing.Literal[\"{}\", \"%\"]'"]
 
 
 def gen_method(rng, key):
@@ -65,6 +65,10 @@ def gen_method(rng, key):
     if rng.random() < 0.3:
         parts.append("**" + rng.choice(["kwargs", "extra"]))
     ret = rng.choice(RETURNS)
+    if rng.random() < 0.08:
+        # no named first parameter at all: the configuration arrives as the first of *args (the usual shape of a wrapper)
+        parts = [rng.choice(["*args", "*args", "*items"])] + ([p for p in parts if not p.startswith("*") and "=" in p and False] or []) + (
+            ["**kwargs"] if rng.random() < 0.7 else [])
     src = "def f(%s)%s:\n    return None\n" % (", ".join(parts), ret)
     if rng.random() < 0.15:
         # a decorated function: what is bound (and called) is the wrapper, whose parameters differ from the wrapped one's
@@ -376,7 +380,11 @@ def run(case, ctx, res):
             res.count("methods_with_percent_in_annotations")
         if m["params"].get("reuse_of"):
             res.count("methods_registered_twice_compared")
-        params = list(sig.parameters.values())[1:]
+        params = list(sig.parameters.values())
+        if params and params[0].kind != params[0].VAR_POSITIONAL:
+            params = params[1:]  # the configuration's slot; a leading *args keeps taking the other positional arguments
+        else:
+            res.count("methods_without_a_named_first_parameter")
         want = {
             "pos": [p.name for p in params if p.kind == p.POSITIONAL_OR_KEYWORD],
             "star": next((p.name for p in params if p.kind == p.VAR_POSITIONAL), None),
